@@ -3,6 +3,12 @@ NOTES = ("Contract-based deductive verification with home-made VC generators (no
 PROOF_NOTE = ("floats as reals; C ints as mathematical ints with overflow obligations; distinct buffers; libm = real functions; "
               "DRF meta-theorem for OpenMP loops; soundness of the VC generators and of z3/cvc5")
 CHECKS = [
+ dict(id="C01", engine="cfront+csym, symtrace", category="proof", design_ref="DESIGN.md section 5 C01",
+      text="the three C geometry kernels, the python reference functions of transform.py, the numba copies of point_by_point.py, Ctransform and "
+           "columnfile.updateGeometry (fast and slow route) are each proved equal to one reference geometry function for all parameters, "
+           "peaks, omega signs and all wedge/chi/translation branches",
+      note=PROOF_NOTE + "; trusted trig facts T1-T4; numpy object-array semantics; one generic peak (element-wise operations)",
+      technique="contracts on the real C + symbolic execution of the real numpy functions, each against a common spec function; z3"),
  dict(id="C06", engine="cfront+csym", category="proof", design_ref="DESIGN.md section 5 C06",
       text="every obligation of inverse3x3, verify_rounding, score, score_and_refine, refine_assigned (postconditions = the property's "
            "count / least-squares definition as recursive sums, loop invariants, memory safety) discharged by z3 for all inputs and all peak counts",
@@ -18,4 +24,4 @@ NOT_APPLICABLE = [
  dict(property_id="C08", reason="soundness+completeness of a heuristic search over a whole peak set and mutable indexer state: no per-function contract expresses 'finds every grain'; kernels covered by C05/C06/C07"),
  dict(property_id="C09", reason="convergence of a Nelder-Mead optimiser to a tolerance is not a partial-correctness property of any function; pieces covered by C01/C06/C07"),
 ] + [dict(property_id=i, reason=_todo) for i in
-     ["C01", "C02", "C03", "C04", "C05", "C10", "C11", "C12", "C13", "C14", "C15", "C16", "C17", "C18", "C19", "C20"]]
+     ["C02", "C03", "C04", "C05", "C10", "C11", "C12", "C13", "C14", "C15", "C16", "C17", "C18", "C19", "C20"]]
